@@ -177,3 +177,12 @@ def c05_dispatch(case):
             if not ok:
                 bad.append((n, order, nm))
     return dict(reproduced=bool(bad), problems=bad[:8])
+
+
+@reg('C05.pconc')
+def pconc(case):
+    import numdifftools.finite_difference as fd
+    from numdifftools.multicomplex import Bicomplex
+    from ndvc.concrete import evaluation_point_cases
+    cnt, bad = evaluation_point_cases(fd, Bicomplex)
+    return dict(reproduced=bool(bad), failing=bad[:3], cases=cnt, statement='evaluation points admissible in floating point')
